@@ -436,15 +436,16 @@ func workerLoop(spec *propSpec, prop, tier string, seed uint64, w, first, runs i
 		res.Runs++
 		res.Draws += int64(o.Draws)
 		res.LogHash = core.Mix(res.LogHash, o.LogHash)
-		if len(sigs) < maxSigs {
+		room := len(sigs) < maxSigs
+		if room {
 			sigs[stats.Sig] = struct{}{}
 		} else {
 			res.SigsSat = true
 		}
 		if stats.Nontrivial {
 			res.Nontrivial++
-			if len(nsigs) < maxSigs {
-				nsigs[stats.Sig] = struct{}{}
+			if room {
+				nsigs[stats.Sig] = struct{}{} // (a subset of sigs, capped together with it)
 			}
 		}
 		if wantPlan && o.Plan != nil && len(o.Viols) == 0 {
